@@ -54,6 +54,8 @@ type Case struct {
 	Seed       uint64      `json:"case_seed"`
 	Nontrivial bool        `json:"nontrivial"`
 	Kind       string      `json:"kind,omitempty"`
+	// Sig is a stable signature of the case's shape, matched against KNOWN_FINDINGS.json.
+	Sig string `json:"sig,omitempty"`
 	// Direct is set when the harness itself (not the Coq judge) saw the property fail on the
 	// implementation (panic, hang, crash of a child process): a failing input by construction.
 	Direct string `json:"direct_violation,omitempty"`
